@@ -238,11 +238,11 @@ type applyCtx struct {
 		a  types.Attestation
 	}
 	// elements created in this block that were spent/resolved in it
-	ephSC  map[types.SiacoinOutputID]SCO
-	ephSF  map[types.SiafundOutputID]SFO
-	ephFC  map[types.FileContractID]FCE
+	ephSC   map[types.SiacoinOutputID]SCO
+	ephSF   map[types.SiafundOutputID]SFO
+	ephFC   map[types.FileContractID]FCE
 	touched map[uint64]bool // existing leaves that need re-hashing
-	pool   *big.Int
+	pool    *big.Int
 }
 
 func (c *applyCtx) createSC(id types.SiacoinOutputID, o types.SiacoinOutput, maturity uint64) error {
